@@ -42,6 +42,9 @@ inductive SimError where
   | dupLabel         -- pandas InvalidIndexError: clp labels not unique
   | missingLabel     -- KeyError: a matrix label is not a clp label
   | noMatrix         -- no megacomplex at all
+  | coordKey         -- KeyError: `coordinates` has no entry for the model dimension
+  | noGlobalDim      -- StopIteration: `coordinates` has no entry besides the model dimension
+  | badDim           -- xarray: `.isel` / `.sel` along a dimension (index) the array does not have
   deriving Repr, DecidableEq, Inhabited
 
 def SimError.name : SimError → String
@@ -52,6 +55,9 @@ def SimError.name : SimError → String
   | .dupLabel => "dup-label"
   | .missingLabel => "missing-label"
   | .noMatrix => "no-matrix"
+  | .coordKey => "coord-key"
+  | .noGlobalDim => "no-global-dim"
+  | .badDim => "bad-dim"
 
 def hasDupS : List String → Bool
   | [] => false
@@ -151,6 +157,46 @@ def simulate {σ : Type} (rng : Rng σ) (st : σ) (inp : SimInput) : Except SimE
       let zs := rng.normals st1 (inp.nModel * inp.nGlobal)
       (.ok (addNoise nz.std data zs.1 inp.nGlobal), zs.2)
 
+/-! ### the call `simulate(model, dataset, parameters, coordinates, clp, noise, …)` and the returned `xr.Dataset` -/
+
+/-- what the call hands in: the dataset model (its model dimension and megacomplex outputs), the `coordinates`
+    dict (in its order), the clp table and the noise arguments -/
+structure SimCall where
+  modelDim : String
+  coords : List (String × Vec)
+  mcs : List McOut
+  gmcs : List McOut
+  clp : Option ClpTable
+  noise : Option Noise
+  deriving Repr, Inhabited
+
+/-- the returned dataset: variable `data` over (model dimension, global dimension), on the coordinates of the request -/
+structure SimResult where
+  dims : String × String
+  coords : List (String × Vec)
+  data : Mat
+  deriving Repr, Inhabited, DecidableEq
+
+/-- `model_axis = coordinates[model_dimension]`; the global dimension is the FIRST other key of `coordinates` -/
+def SimCall.resolve (c : SimCall) : Except SimError (Vec × String × Vec) :=
+  match c.coords.lookup c.modelDim with
+  | none => .error .coordKey
+  | some maxis =>
+    match c.coords.find? (fun p => p.1 != c.modelDim) with
+    | none => .error .noGlobalDim
+    | some p => .ok (maxis, p.1, p.2)
+
+def mkResult (mdim : String) (maxis : Vec) (gdim : String) (gaxis : Vec) (d : Mat) : SimResult :=
+  ⟨(mdim, gdim), [(mdim, maxis), (gdim, gaxis)], d⟩
+
+/-- `simulate` as called: sizes from the coordinates, data from `simulate`, dims / coords from the request -/
+def simulateCall {σ : Type} (rng : Rng σ) (st : σ) (c : SimCall) : Except SimError SimResult × σ :=
+  match c.resolve with
+  | .error e => (.error e, st)
+  | .ok (maxis, gdim, gaxis) =>
+    let r := simulate rng st ⟨maxis.length, gaxis.length, c.mcs, c.gmcs, c.clp, c.noise⟩
+    (r.1.map (mkResult c.modelDim maxis gdim gaxis), r.2)
+
 /-! ### from a simulation to the dataset the fit sees -/
 
 structure SimDataset where
@@ -201,8 +247,28 @@ def runSim (nModel nGlobal : Nat) (mcs gmcs : List McOut) (clp : Option ClpTable
   | none => (simulate (tapeRng []) [] inp).1
   | some n => (simulate (tapeRng n.tapeSeeded) n.tapeGlobal inp).1
 
+def parseCoord : Tree → Option (String × Vec)
+  | .list [n, ax] => do some (← n.str?, ← ax.rats?)
+  | _ => none
+
+def showResult (r : Except SimError SimResult) : String :=
+  match r with
+  | .ok d => "result " ++ showList [encodeStr d.dims.1, encodeStr d.dims.2] ++ " " ++
+      showList (d.coords.map (fun c => showList [encodeStr c.1, showRats c.2])) ++ " " ++ C02.showMat d.data
+  | .error e => "err " ++ e.name
+
 def driverStep (s : DState) (ts : List Tree) : DState × String :=
   match ts with
+  | [.atom "simcall", mdim, coords, mcs, gmcs, clp, noise] =>
+    match mdim.str?, Tree.listOf? parseCoord coords, Tree.listOf? parseMc mcs, Tree.listOf? parseMc gmcs,
+          Tree.optOf? parseClp clp, Tree.optOf? parseNoise noise with
+    | some md, some cs, some ms, some gs, some c, some nz =>
+      let call : SimCall := ⟨md, cs, ms, gs, c, nz.map (·.noise)⟩
+      let r := match nz with
+        | none => (simulateCall (tapeRng []) [] call).1
+        | some n => (simulateCall (tapeRng n.tapeSeeded) n.tapeGlobal call).1
+      (s, showResult r)
+    | _, _, _, _, _, _ => (s, "bad-op")
   | [.atom "sim", nModel, nGlobal, mcs, gmcs, clp, noise] =>
     match nModel.nat?, nGlobal.nat?, Tree.listOf? parseMc mcs, Tree.listOf? parseMc gmcs,
           Tree.optOf? parseClp clp, Tree.optOf? parseNoise noise with
